@@ -22,7 +22,7 @@ from vf.common import CACHE, TREE_HASH, canon, jdump
 from vf.gen import config as GC
 from vf.gen import loads as GL
 
-SCEN_VERSION = "5"
+SCEN_VERSION = "6"
 
 
 def scen_key(cfg, opts=None):
@@ -50,7 +50,7 @@ class SearchTap:
         tap = self
         o = self._orig
 
-        def search(self_):
+        def search(self_, *a_, **kw_):
             entry = {
                 "cls": type(self_).__name__,
                 "counts": [len(c) for c in self_.coordinates_domain],
@@ -64,7 +64,7 @@ class SearchTap:
             buf = io.StringIO()
             try:
                 with contextlib.redirect_stdout(buf):
-                    r = o["search"](self_)
+                    r = o["search"](self_, *a_, **kw_)
                 entry["result"] = int(r[0])
                 entry["calculated"] = {str(k): float(v) for k, v in self_.calculated_temperatures.items()}
                 return r
@@ -79,25 +79,25 @@ class SearchTap:
                 entry["odd_behavior"] = out.count("odd behavior")
                 print(out, end="")
 
-        def calculate_excess(self_, coordinates, h, field_specifier="N/A"):
-            r = o["calc"](self_, coordinates, h, field_specifier=field_specifier)
+        def calculate_excess(self_, coordinates, h, *a_, **kw_):
+            r = o["calc"](self_, coordinates, h, *a_, **kw_)
             tap.hits["calculate_excess"] += 1
             if tap._stack:
                 tap._stack[-1]["evals"].append([len(coordinates), float(h), float(r)])
             return r
 
-        def rcalc(self_, coordinates, h, field_specifier="N/A"):
-            r = o["rcalc"](self_, coordinates, h, field_specifier=field_specifier)
+        def rcalc(self_, coordinates, h, *a_, **kw_):
+            r = o["rcalc"](self_, coordinates, h, *a_, **kw_)
             tap.hits["rowwise_calculate_excess"] += 1
-            tap.rowwise_evals.append([len(coordinates), float(h), float(r), str(field_specifier)])
+            tap.rowwise_evals.append([len(coordinates), float(h), float(r), str(kw_.get("field_specifier", a_[0] if a_ else "N/A"))])
             return r
 
-        def succ(self_, max_iter=None):
+        def succ(self_, *a_, **kw_):
             tap.hits["search_successive"] += 1
             ent = {"selection_key_outer": int(self_.selection_key_outer), "n_lists": len(self_.coordinates_domain_nested)}
             tap.successive.append(ent)
             try:
-                r = o["succ"](self_, max_iter=max_iter)
+                r = o["succ"](self_, *a_, **kw_)
                 ent["heights"] = {str(k): float(v) for k, v in self_.calculated_heights.items()}
                 ent["result"] = int(r[0])
                 return r
